@@ -232,7 +232,7 @@ double const INF = std::numeric_limits<double>::infinity();
 inline auto eps_of(bool is32) -> double { return is32 ? 0x1p-23 : 0x1p-52; }
 inline bool negzero(double x) { return x == 0 && std::signbit(x); }
 inline bool cls_sqrt(double x, bool is32) { return negzero(x) || (x > 0 && x < eps_of(is32)); }
-inline bool cls_sinh(double x, bool is32) { return negzero(x) || (x != 0 && ::fabs(x) < (is32 ? 0x1p-13 : 0x1p-42)); }
+inline bool cls_sinh(double x, bool is32) { return negzero(x) || (x != 0 && ::fabs(x) < (is32 ? 0x1p-12 : 0x1p-41)); }
 inline bool cls_atanh(double x, bool is32)
 {
     double const a = ::fabs(x);
@@ -244,7 +244,7 @@ inline bool cls_log1p(double x, bool is32) { return x > -1 && x + 1 < eps_of(is3
 inline bool cls_tgamma(double x, bool is32)
 {
     if (negzero(x) || x == INF || x == -INF) { return true; } // -inf: unbounded recursion tgamma(x + 1) / x (stack overflow)
-    if (x > 0) { return x < (is32 ? 0x1p-14 : 0x1p-42); }
+    if (x > 0) { return x < (is32 ? 0x1p-13 : 0x1p-41); }
     if (x < 0 && x != ::floor(x)) { return ::fabs(x) < eps_of(is32) || ::fabs(x - ::round(x)) < eps_of(is32) || x < -170; }
     return false;
 }
